@@ -273,6 +273,7 @@ func genAwsSpecs(prop, tier string, rng *rand.Rand) []awsSpec {
 				o.FleetInstances = splitGroups(ids, 1+si%3)
 				s := awsSpec{Kind: "increase", ASG: g, D: d, Oracle: o, Tries: 0}
 				mod(&s.ASG, &s.Oracle, &s)
+				s.Oracle.ErrCode = []string{"", "ValidationError", "Throttling", "RequestLimitExceeded"}[(len(specs)+si)%4]
 				specs = append(specs, s)
 			}
 			// success with each lifecycle / override combination
@@ -416,9 +417,12 @@ func genAwsSpecs(prop, tier string, rng *rand.Rand) []awsSpec {
 							parts := strings.Split(l[k].PID, "/")
 							fails = append(fails, []string{parts[len(parts)-1]})
 						}
-						for _, f := range fails {
+						for fi, f := range fails {
 							o := okOrc
 							o.TermInAsgFail = f
+							if f != nil { // the refusal as the SDK reports it: a plain error, or an awserr with one of AWS's codes
+								o.ErrCode = []string{"", "ValidationError", "Throttling", "ScalingActivityInProgress"}[(fi+len(l)+m)%4]
+							}
 							specs = append(specs, awsSpec{Kind: "delete", ASG: g, Oracle: o, Nodes: l})
 						}
 					}
